@@ -3,14 +3,16 @@ CONSTANTS Nib = {0, 1, 15}
           KeyLen = 2
           Vals = {10, 331}
           Pad = 0
-          MaxKeys = 9
-          Mode = "mc"
+          MaxKeys = 4
+          Mode = "edges"
+          SeqBatches = TRUE
           Depth = 0
           NBatch = 0
-          BOps <- OpsIns
+          BOps <- OpsAll
           BatchLens = {}
           BatchSet <- MCBatchSet
 INVARIANTS CanonInv LookupInv IterInv WFInv BatchInv
 CONSTRAINT Small
+ACTION_CONSTRAINT Edge
 VIEW View
 CHECK_DEADLOCK FALSE
